@@ -4,7 +4,7 @@ use crate::enumr::StringSpace;
 use crate::report::*;
 use crate::sweep::Family;
 use exmex::prelude::*;
-use exmex::{DeepEx, Differentiate, Express, Val, ValMatcher, ValOpsFactory};
+use exmex::{DeepEx, Differentiate, Express, MakeOperators, Val, ValMatcher, ValOpsFactory};
 use serde_json::json;
 
 type VDeep<'a> = DeepEx<'a, Val<i32, f64>, ValOpsFactory<i32, f64>, ValMatcher>;
@@ -390,6 +390,102 @@ impl Family for Deep {
     }
 }
 
+// ---------------------------------------------------------------------------------------------
+
+/// every unary operator of the value table on boundary integers / floats, and the integer
+/// operators on boundary pairs, as literals (folded at parse time) and through a variable, for
+/// 32- and 64-bit integers; small chunks with a short watchdog so that a call that does not
+/// return is reported as a hang
+pub struct ValBoundary {
+    pub cases: Vec<(bool, String, Option<String>)>,
+}
+const BOUNDARY_LITS: [&str; 22] = [
+    "0", "1", "2", "3", "12", "13", "20", "21", "31", "32", "63", "64", "170", "171", "65536", "2147483647", "2147483648", "4294967296", "4611686018427387903", "9223372036854775807", "2.5", "1e300",
+];
+impl ValBoundary {
+    pub fn new(th: bool) -> ValBoundary {
+        let mut cases = Vec::new();
+        let ops = ValOpsFactory::<i64, f64>::make();
+        let mut uns: Vec<String> = ops.iter().filter(|o| o.has_unary()).map(|o| o.repr().to_string()).collect();
+        uns.sort();
+        let bins = ["^", "<<", ">>", "*", "+", "-", "/", "%", "//"];
+        for wide in [false, true] {
+            for u in &uns {
+                for l in BOUNDARY_LITS {
+                    for neg in [false, true] {
+                        let lit = if neg { format!("(-{l})") } else { l.to_string() };
+                        cases.push((wide, format!("{u}({lit})"), None));
+                        cases.push((wide, format!("{u}(x)"), Some(lit.clone())));
+                        if neg && l.ends_with('7') {
+                            // the smallest integer
+                            cases.push((wide, format!("{u}(-{l}-1)"), None));
+                            cases.push((wide, format!("{u}(x)"), Some(format!("-{l}-1"))));
+                        }
+                    }
+                }
+            }
+            let lits: &[&str] = if th { &BOUNDARY_LITS } else { &["0", "1", "2", "31", "32", "63", "64", "2147483647", "9223372036854775807", "2.5"] };
+            for b in bins {
+                for l1 in lits {
+                    for l2 in lits {
+                        cases.push((wide, format!("{l1} {b} {l2}"), None));
+                        cases.push((wide, format!("(-{l1}) {b} {l2}"), None));
+                        cases.push((wide, format!("{l1} {b} (-{l2})"), None));
+                    }
+                }
+            }
+        }
+        ValBoundary { cases }
+    }
+}
+fn run_boundary<I>(text: &str, at: &Option<String>, acc: &mut Acc, entry: &str)
+where
+    I: exmex::DataType + num::PrimInt + num::Signed + std::str::FromStr,
+    <I as std::str::FromStr>::Err: std::fmt::Debug,
+{
+    acc.evaluations += 1;
+    acc.states += 1;
+    acc.nontrivial += 1;
+    let parsed = step!(acc, entry, "parse", text, exmex::parse_val::<I, f64>(text));
+    if let (Some(Ok(e)), Some(at)) = (parsed, at) {
+        // the operand arrives through a variable
+        if let Some(Ok(v)) = step!(acc, entry, "parse", at, exmex::parse_val::<I, f64>(at).and_then(|a| a.eval(&[]))) {
+            step!(acc, entry, "eval", text, e.eval(&[v]).is_ok());
+        }
+    }
+}
+impl Family for ValBoundary {
+    fn name(&self) -> String {
+        "val boundary operands (i32 and i64), literal and through a variable".into()
+    }
+    fn total(&self) -> u64 {
+        self.cases.len() as u64
+    }
+    fn run_case(&self, idx: u64, acc: &mut Acc) {
+        let (wide, text, at) = &self.cases[idx as usize];
+        if *wide {
+            run_boundary::<i64>(text, at, acc, "parse_val::<i64,f64>")
+        } else {
+            run_boundary::<i32>(text, at, acc, "parse_val::<i32,f64>")
+        }
+    }
+    fn describe(&self, idx: u64) -> String {
+        let (wide, text, at) = &self.cases[idx as usize];
+        format!("parse_val::<{},f64>({text:?}){}", if *wide { "i64" } else { "i32" }, at.as_ref().map(|a| format!(" evaluated at x = {a}")).unwrap_or_default())
+    }
+    fn crash_signature(&self, idx: u64) -> String {
+        let (wide, text, _) = &self.cases[idx as usize];
+        let op: String = text.chars().take_while(|c| *c != '(' && *c != ' ').collect();
+        format!("val:{}:{op}", if *wide { "i64" } else { "i32" })
+    }
+    fn chunk_hint(&self) -> Option<u64> {
+        Some(256)
+    }
+    fn watchdogs(&self) -> (u64, u64) {
+        (20, 8)
+    }
+}
+
 fn sv(v: &[&str]) -> Vec<String> {
     v.iter().map(|s| s.to_string()).collect()
 }
@@ -433,6 +529,7 @@ pub fn families(tier: Tier) -> Vec<Box<dyn Family>> {
     let depths: Vec<usize> = (1..=100).filter(|d| th || *d <= 12 || d % 4 == 0 || *d >= 99).collect();
     v.push(Box::new(Deep { val: false, depths: depths.clone() }));
     v.push(Box::new(Deep { val: true, depths }));
+    v.push(Box::new(ValBoundary::new(th)));
     v
 }
 
